@@ -216,6 +216,11 @@ pub fn run(ctx: &mut Ctx) {
         }
         let mut rng = ctx.rng.fork();
         let t = match i % 5 {
+            _ if i % 997 == 3 && !ctx.miri => {
+                // nesting beyond 255 levels with a null-valued member at the bottom
+                let leaf = Tree::Obj(vec![("x".into(), Tree::Null), ("y".into(), Tree::Arr(vec![Tree::Null, Tree::Obj(vec![("n".into(), Tree::Null)])]))]);
+                gen::deep(*rng.pick(&[200usize, 255, 256, 257, 300, 400]), rng.below(3) as u8, leaf)
+            }
             _ if i % 8009 == 7 && !ctx.miri => gen::big_doc(&mut rng, ctx.tier == crate::monitor::Tier::Thorough && i % 5 == 0),
             0 => gen::doc(&mut rng, &gen::DocCfg { max_depth: 6, max_fan: 4, nonfinite: true, container_p: 6 }),
             1 => gen::scalar(&mut rng, true),
